@@ -2,9 +2,9 @@
 # accept_seeds.sh <ID> <demo_dest> <regex> <history-or-empty> <test pkgs...> : confirm the three seeds of /tmp/seed/out/<id>-N and store them
 ID=$1; DEST=$2; RX=$3; HIST=$4; shift 4
 lc=$(echo $ID | tr A-Z a-z)
-for n in 1 2 3; do
+for n in ${NUMS:-1 2 3}; do
   [ -d /tmp/seed/out/$lc-$n ] || continue
   python3 /verif/tools/confirm_seed.py /tmp/seed/out/$lc-$n $DEST $RX "$@" 2>&1 | tail -1
   python3 /verif/tools/store_seed.py /tmp/seed/out/$lc-$n $ID-$n "./check $ID quick" "$HIST" 2>&1 | tail -1
 done
-git -C /repo worktree remove --force /tmp/seed/${lc}a 2>/dev/null
+[ -z "$KEEPWT" ] && git -C /repo worktree remove --force /tmp/seed/${lc}a 2>/dev/null
